@@ -457,8 +457,17 @@ SPEC = {
     'rule': 'generated documents (0-60 objects incl. streams, skipped XRef/ObjStm/Linearized objects, sparse ids, generations, '
             'wrong max_id, stale Size/Filter/Index in the trailer, four versions, binary marks) x {xref table, xref stream} x '
             '{Document::save_to, IncrementalDocument::save_to} against scripted std::io::Write sinks: short writes 1..k, '
-            'Interrupted bursts, Ok(0), hard errors of 10 ErrorKinds, sinks that recover after a failure; failure injected at '
-            'EVERY byte offset of the complete output for tiny/small documents and at sampled offsets for larger ones; '
+            'Interrupted bursts, Ok(0), hard errors of 10 ErrorKinds, sinks that recover after a failure; ONE failure (the sink is healthy '
+            'again afterwards, so a swallowed error shows as Ok with a hole) or, for a quarter of the sweeps, a failure repeated for ever, injected at '
+            'EVERY byte offset of the complete output for tiny/small documents (plain and incremental, the previous revision\'s bytes included) '
+            'and at sampled offsets for larger ones; '
+            'documents with one to three stream payloads of 65 537 .. 300 000 bytes (quick tier: 65 537 and one of 65 537 .. 100 000; a payload of '
+            'exactly 65 536 beside them in some) x both formats x plain/incremental: at the first, middle and last byte of each payload, the bytes around them, '
+            'the multiples of 65536 and sampled multiples of 4096 and 8192 counted from the payload start and from the output start, and random offsets inside, the sink '
+            'answers Ok(0) once / Ok(0) for ever / a hard error once / for ever / an Interrupted burst of up to 4000 / a burst then Ok(0) / '
+            'short writes then a hard error / short writes only; short-write and Interrupted patterns over the whole payload; RLIMIT_FSIZE limits inside the payloads; '
+            'a save that does not return is a violation: the sink aborts a writer that is still offering bytes after 10 000 consecutive answers without progress, '
+            'and a save running for more than 30 s is abandoned and reported; a document whose reference save (perfect sink) fails, panics or hangs is a failing case of its own; '
             'the model is given the implementation\'s own reference output cut into arbitrary write_all calls; '
             'each run is followed by a re-save of the same document object to a healthy sink which must load back to the reference content; '
             'Document::save(path) and IncrementalDocument::save(path) (BufWriter<File> + into_inner) on the same documents, outputs from '
@@ -472,7 +481,10 @@ SPEC = {
                       'C19: std::io::BufWriter (capacity 8192; write_all buffers or flushes then writes through; flush_buf = the write_all loop on the '
                       'buffer; into_inner flushes and reports the error; Drop flushes and discards it) transcribed from the std source/documentation',
                       'C19: the kernel\'s RLIMIT_FSIZE behaviour (short write up to the limit, EFBIG afterwards) and /dev/full (ENOSPC) as failing devices',
-                      'C19: the complete output fed to the model is the implementation\'s own (perfect sink); what the bytes ARE is C01/C03\'s concern'],
+                      'C19: the complete output fed to the model is the implementation\'s own (perfect sink); what the bytes ARE is C01/C03\'s concern',
+                      'C19: for outputs above 64 KiB the model answers with result + delivered LENGTH (its printer is not stack-safe for 300 KB atoms); that the '
+                      'delivered bytes are a prefix of the reference output is checked by the harness directly',
+                      'C19: "never returns" is decided by bounds: 10 000 consecutive sink answers without progress, or 30 s of wall time for one save'],
     'partial_note': 'resave_after_failure is proved for the document state and the issued calls (C19_failed_save_residue, '
                     'C19_resave_table, C19_resave_stream_partial); that the re-saved file loads to the same content needs the loader '
                     '(C01/C03) and is evaluated on the implementation for every case instead',
